@@ -83,7 +83,10 @@ class Creators:
 
   def __add_line_unknown_version(self, gfa_line):
     if isinstance(gfa_line, str):
-      rt = gfa_line[0]
+      # the record type is the first field (a comment starts with #)
+      rt = gfa_line.split("\t", 1)[0]
+      if rt.startswith("#"):
+        rt = "#"
     elif isinstance(gfa_line, gfapy.Line):
       rt = gfa_line.record_type
     else:
@@ -141,7 +144,7 @@ class Creators:
 
   def __add_line_GFA1(self, gfa_line):
     if isinstance(gfa_line, str):
-      if gfa_line[0] == "S":
+      if gfa_line.split("\t", 1)[0] == "S":
         gfa_line = gfapy.Line(gfa_line, vlevel=self._vlevel,
             dialect=self._dialect)
       else:
@@ -175,7 +178,7 @@ class Creators:
 
   def __add_line_GFA2(self, gfa_line):
     if isinstance(gfa_line, str):
-      if gfa_line[0] == "S":
+      if gfa_line.split("\t", 1)[0] == "S":
         gfa_line = gfapy.Line(gfa_line, vlevel=self._vlevel,
             dialect=self._dialect)
       else:
